@@ -86,11 +86,16 @@ T_contw == TextS("continuation", FALSE, << <<a, Ws>>, <<M1, Semi>> >>, "bs")    
 T_plain == Text("plain", FALSE, <<x, Ws, Eq, Ws, y, Ws, Plus, Ws, one, Semi>>)   \* x = y + 1;
 T_plains == Text("plain-string", FALSE, <<Id("hint"), Ws, Str("\"a  b\""), Semi>>)  \* hint "a  b";
 
+\* #include: a guarded header, and a header that includes it (main: the same file twice, a diamond)
+Include(tag, name, sub) == [k |-> "include", tag |-> tag, rich |-> FALSE, name |-> name, sub |-> sub, back |-> FALSE]
+I_c == Include("include", "common.hpp", <<Ifndef("M2"), D_M2, Endif>>)          \* #ifndef M2 / #define M2 7 / #endif
+I_a == Include("include-nested", "a.hpp", <<I_c, Text("use-obj", FALSE, <<a, Ws, M2>>)>>)   \* #include "common.hpp" / a M2
+
 DefsFull == {D_M1, D_M1uses, D_M2, D_M2str, D_M1empty, D_F, D_Fstr, D_Fq, D_Fempty, D_G, D_GF, D_Gmix, D_H, D_M1cont, D_M1cmt}
 TextsFull == {T_use, T_usep, T_affix, T_alone, T_call, T_callm, T_nest, T_call2, T_call2n, T_empty1, T_empty2, T_brk, T_par, T_brc,
               T_sarg, T_sarg2, T_bare, T_call0, T_two, T_str, T_strc, T_lc, T_lc2, T_bc, T_bcm, T_bcm0, T_cont, T_contw, T_plain, T_plains}
 CondsFull == {Ifdef("M1"), Ifndef("M1"), Ifdef("M2"), Ifndef("F"), Else, Endif}
-LinesFull == DefsFull \cup TextsFull \cup CondsFull \cup {Undef("M1"), Undef("M2"), Undef("F")}
+LinesFull == DefsFull \cup TextsFull \cup CondsFull \cup {Undef("M1"), Undef("M2"), Undef("F"), I_c, I_a}
 
 LinesCore == {D_M1, D_M1uses, D_M2, D_M1empty, D_F, D_Fstr, D_G, Undef("M1"), Ifdef("M1"), Ifndef("M1"), Else, Endif,
               T_use, T_affix, T_call, T_callm, T_nest, T_call2n, T_str, T_lc, T_cont, T_plain}
